@@ -15,8 +15,8 @@
      item list whose last item is EOF or an error item; the number of state-function steps is at most
      40 + 40*|s| and the work (calls of next() + bytes scanned by strings.Index) at most 40*|s| + 24.
    The unicode classes (unicode.IsLetter, unicode.IsDigit) are arbitrary predicates false of eof. *)
-From Soy Require Import Model.Bytes Model.Outcome Model.Token Generated.Tables Model.Lexer Spec.LexSpec
-  Proofs.LexerPrim Proofs.LexerProofs.
+From Soy Require Import Model.Bytes Model.Outcome Model.Ast Model.Token Model.ExprParser Model.Parser Generated.Tables Model.Lexer Spec.LexSpec
+  Proofs.LexerPrim Proofs.LexerProofs Proofs.ParserMeasure Proofs.ParserProofs Proofs.LexParseBridge.
 Open Scope Z_scope.
 
 Theorem lex_total_linear : forall (uni_letter uni_digit : Z -> bool),
@@ -57,6 +57,58 @@ Print Assumptions lex_items_pos_le.
 Theorem lex_tbl_total_linear : forall expr_mode, scanner_total_linear (lex_items_tbl expr_mode) 40.
 Proof. exact LexerProofs.lex_tbl_total_linear. Qed.
 Print Assumptions lex_tbl_total_linear.
+
+(* ---------- parser half (Proofs/ParserProofs.v): every stream of well-formed items ---------- *)
+
+Theorem parse_file_total : forall (inlen : N) (lexq : bstr -> list tok) (unq : bstr -> option bstr),
+  lexq_wf lexq -> forall ts fuel, items_wf inlen ts -> (length ts + 2 <= fuel)%nat ->
+  is_tree_or_error (po_result (parse_file inlen lexq unq parse_expr expr_fuel fuel ts)).
+Proof. exact ParserProofs.parse_file_total. Qed.
+Print Assumptions parse_file_total.
+
+Theorem parse_expr_total : forall (inlen : N) ts, items_wf inlen ts -> is_tree_or_error (po_result (soy_expr inlen ts)).
+Proof. exact ParserProofs.parse_expr_total. Qed.
+Print Assumptions parse_expr_total.
+
+Theorem parse_linear : forall (inlen : N) (lexq : bstr -> list tok) (unq : bstr -> option bstr),
+  lexq_wf lexq -> forall ts fuel, items_wf inlen ts -> (length ts + 2 <= fuel)%nat ->
+  (recv_of (po_result (parse_file inlen lexq unq parse_expr expr_fuel fuel ts)) <= length ts + 4)%nat
+  /\ Forall (fun r => (sc_recv r <= sc_sent r + 4)%nat) (po_scans (parse_file inlen lexq unq parse_expr expr_fuel fuel ts)).
+Proof. exact ParserProofs.parse_linear. Qed.
+Print Assumptions parse_linear.
+
+(* ---------- both halves: byte string -> items -> tree or error ---------- *)
+(* The scanner's items satisfy the parser theorems' hypotheses for EVERY input, except that float items
+   must denote floats of the parser model's domain (Model/NumLit.v parse_float: exactly representable
+   decimals) -- a restriction of the parser MODEL, kept as the hypothesis floats_ok.  The nested scanner of
+   parseQuotedExpr is a parameter satisfying lexq_wf. *)
+
+Theorem scan_items_wf : forall lim ts, scan_ok lim ts -> floats_ok ts -> items_wf lim ts.
+Proof. exact LexParseBridge.scan_items_wf. Qed.
+Print Assumptions scan_items_wf.
+
+Theorem scan_eof_last : forall lim ts, scan_ok lim ts -> eof_last ts.
+Proof. exact LexParseBridge.scan_eof_last. Qed.
+Print Assumptions scan_eof_last.
+
+Theorem soy_file_total_composed : forall (uni_letter uni_digit : Z -> bool),
+  uni_letter (-1) = false -> uni_digit (-1) = false ->
+  forall (lexq : bstr -> list tok) (unq : bstr -> option bstr), lexq_wf lexq -> forall s : bstr,
+  exists ts, lex_items uni_letter uni_digit (lex_budget s) false s = Ok ts /\
+    (floats_ok ts ->
+       is_tree_or_error (po_result (soy_file (N.of_nat (length s)) lexq unq ts)) /\
+       (recv_of (po_result (parse_file (N.of_nat (length s)) lexq unq parse_expr expr_fuel (file_fuel ts) ts)) <= length ts + 4)%nat).
+Proof. exact LexParseBridge.soy_file_total_composed. Qed.
+Print Assumptions soy_file_total_composed.
+
+Theorem soy_expr_total_composed : forall (uni_letter uni_digit : Z -> bool),
+  uni_letter (-1) = false -> uni_digit (-1) = false -> forall s : bstr,
+  exists ts, lex_items uni_letter uni_digit (lex_budget s) true s = Ok ts /\
+    (floats_ok ts ->
+       is_tree_or_error (po_result (soy_expr (N.of_nat (length s)) ts)) /\
+       (recv_of (po_result (soy_expr (N.of_nat (length s)) ts)) <= length ts + 4)%nat).
+Proof. exact LexParseBridge.soy_expr_total_composed. Qed.
+Print Assumptions soy_expr_total_composed.
 
 (* Non-vacuity.  The hypotheses on the unicode classes hold of the regenerated tables; the tables are
    ascending (the early exit of [in_ranges] is sound); and the model really scans: a template, an
